@@ -34,12 +34,15 @@ use std::collections::{BTreeMap, HashSet};
 const PATH_ATOMS: &[&str] = &[
     "a", "b", "A", "B", "ab", "x", "Z", "0", "9", "/", "/", "/", "-", "_", ".", "~", "é", "%c3%a9", "%C3%A9", "%41", "%61", "%2F", "%2f", " ", "\"", "<", ">", "`",
     "{", "}", "|", "\\", "^", "[", "]", "+", "%", "%zz", "%4", "%4g", "\t", "\u{7f}", "*", "!", "$", "'", "(", ")", ",", ";", ":", "@", "=", "&", "ü", "日本", "😀", "%20", "%2B", "%25", "%23", "%3F",
+    // non-ASCII letters with case (Rust's to_lowercase is Unicode; the case flag only ever sees their escapes)
+    "É", "Ж", "ж", "İ", "ǅ", "ẞ", "ß", "Σ", "σ",
 ];
 
 const KEY_ATOMS: &[&str] = &[
     "a", "b", "c", "A", "B", "ab", "a%62", "a+b", "a%20b", "a b", "é", "%C3%A9", "%c3%a9", "", "utm_source", "utm_medium", "UTM_source", "utm_term", "utm_campaign", "utm_content",
     "gclid", "k%26", "k%3D", "k%3d", "%ff", "%", "%4", "%zz", "a#b", "a?b", "[x]", "a\"b", "<k>", "a+", "%2B", "%2b", "%25", "%2541", "%00", "a`b", "k", "K", "日本", "😀", "%E9", "%e9%80", "%F0%9F%98%80", "%f0%9f",
     "%ed%a0%80", "%c0%af", "%e0%80%af", "a%", "%%41", "a{b}", "a|b", "a\\b", "a^b", "a~b", "a'b", "a*b", "1", "10", "2", "\t", "\u{7f}", "%7F", "%0a", "+", "%20", " ",
+    "É", "Ж", "ж", "İ", "ǅ", "ẞ", "ß", "Σ", "ς", "%C3%89", "%c3%89",
 ];
 
 fn pick_str(rng: &mut Prng, atoms: &[&str], max_atoms: usize) -> String {
@@ -377,6 +380,15 @@ fn gen(args: &Args, emit: &mut dyn FnMut(Value)) {
         ("?a=1", "/?a=1"),
         ("/a`b?x=1&a=2", "/a`b?a=2&x=1"),
         ("/caf%c3%a9?x=%c3%a9", "/caf%C3%A9?x=é"),
+        // the four classes on which the rule built from u does not match the request for u (known findings self-match-*)
+        ("/a?=&a", "/a?=&a"),
+        ("?a", "?a"),
+        ("/`?b&a", "/`?b&a"),
+        ("/a?utm_source", "/a?utm_source"),
+        ("/a?b=1&utm_medium=x", "/a?b=1"),
+        // non-ASCII letters with case: never folded in paths and queries (they are escaped before the flag applies)
+        ("/É/Ж?İ=ǅ&ẞ=Σ", "/é/ж?i̇=ǆ&ß=σ"),
+        ("/É", "/é"),
     ];
     for (a, b) in pins {
         for f in [0usize, 1, 2, 6, 7] {
@@ -433,6 +445,51 @@ fn gen(args: &Args, emit: &mut dyn FnMut(Value)) {
                 // ';' is NOT a separator for form_urlencoded::parse
                 let u3 = format!("/p?{n}=1;z=2&y=3");
                 emit(json!({"u": hex(u3.as_bytes()), "u2": hex(format!("/p?y=3&{n}=1;z=2").as_bytes()), "kind": "encoded-name", "cfg": cfg, "target": hex(b"/t"), "host": null, "headers": []}));
+            }
+        }
+    }
+    // boundary family (6): NON-ASCII letters with case (É, Ж, İ -> i + combining dot, ǅ title-case, ẞ -> ß, final sigma)
+    // under the three ignore-case flags: (a) in paths / names / values — never folded, the case flag only sees their
+    // escapes (model and implementation compared); (b) in rule and request HOSTS and (c) in header values — Unicode
+    // to_lowercase, implementation-only oracles (the driver abstains)
+    {
+        let words = ["É", "Ж", "İ", "ǅ", "ẞ", "Σ", "ÀÉÎ", "Жук", "İstanbul", "STRAẞE", "ΟΔΟΣ", "ǅungla"];
+        for w in words.iter() {
+            let lo = w.to_lowercase();
+            let up = w.to_uppercase();
+            let esc_up: String = w.bytes().map(|b| format!("%{:02X}", b)).collect();
+            let esc_lo: String = w.bytes().map(|b| format!("%{:02x}", b)).collect();
+            for f in 0..4usize {
+                let cfg = json!({"ic": f & 1 != 0, "im": f & 2 != 0, "pm": true, "ihc": false, "ihd": false, "amh": true, "mk": mkd});
+                let u = format!("/{w}/X?{w}=1&k={w}");
+                for u2 in [u.clone(), u.to_lowercase(), u.to_uppercase(), format!("/{w}/x?{w}=1&K={w}"), format!("/{w}/X?k={w}&{w}=1")] {
+                    emit(json!({"u": hex(u.as_bytes()), "u2": hex(u2.as_bytes()), "kind": "unicode-case", "cfg": cfg, "target": hex(b"/t"), "host": null, "headers": []}));
+                }
+                emit(json!({"u": hex(format!("/{esc_up}?{esc_lo}=1").as_bytes()), "u2": hex(format!("/{esc_lo}?{esc_up}=1").as_bytes()), "kind": "unicode-case", "cfg": cfg, "target": hex(b"/t"), "host": null, "headers": []}));
+                emit(json!({"u": hex(format!("/{esc_up}?{w}=1").as_bytes()), "u2": hex(format!("/{w}?{esc_up}=1").as_bytes()), "kind": "unicode-case", "cfg": cfg, "target": hex(b"/t"), "host": null, "headers": []}));
+            }
+            for f in 0..4usize {
+                let cfg = json!({"ic": false, "im": true, "pm": true, "ihc": f & 1 != 0, "ihd": false, "amh": f & 2 != 0, "mk": mkd});
+                let rh = format!("{w}.Example.org");
+                for qh in [rh.clone(), rh.to_lowercase(), rh.to_uppercase(), format!("{w}.EXAMPLE.ORG"), format!("{lo}.example.org"), format!("{up}.example.org"), "other.example.org".to_string()] {
+                    emit(json!({"u": hex(b"/p?b=1&a=2"), "u2": hex(b"/p?a=2&b=1"), "kind": "unicode-host", "cfg": cfg, "target": hex(b"/t"), "host": hex(qh.as_bytes()), "headers": [], "rhost": rh}));
+                }
+                // a host-less rule, a non-ASCII request host (lower-cased by from_config iff the flag)
+                emit(json!({"u": hex(b"/p?b=1&a=2"), "u2": hex(b"/p?a=2&b=1"), "kind": "unicode-host", "cfg": cfg, "target": hex(b"/t"), "host": hex(rh.as_bytes()), "headers": []}));
+                // a rule host and no request host
+                emit(json!({"u": hex(b"/p"), "u2": hex(b"/p"), "kind": "unicode-host", "cfg": cfg, "target": hex(b"/t"), "host": null, "headers": [], "rhost": rh}));
+            }
+            for ihd in [false, true] {
+                let cfg = json!({"ic": false, "im": true, "pm": true, "ihc": false, "ihd": ihd, "amh": true, "mk": mkd});
+                let headers = json!([[hex(b"X-A"), hex(w.as_bytes())], [hex(b"x-b"), hex(up.as_bytes())], [hex(b"Accept"), hex(format!("{lo}/TEXT").as_bytes())]]);
+                emit(json!({"u": hex(b"/p?b=1&a=2"), "u2": hex(b"/p?a=2&b=1"), "kind": "unicode-header", "cfg": cfg, "target": hex(b"/t"), "host": hex(b"Example.ORG"), "headers": headers}));
+            }
+        }
+        // ASCII hosts too: a rule with a host is matched case-insensitively iff ignore_host_case
+        for f in 0..4usize {
+            let cfg = json!({"ic": false, "im": true, "pm": true, "ihc": f & 1 != 0, "ihd": false, "amh": f & 2 != 0, "mk": mkd});
+            for (rh, qh) in [("Example.org", "example.ORG"), ("example.org", "example.org"), ("example.org", "example.org."), ("example.org", "example.org:80"), ("EXAMPLE.ORG", "example.org")] {
+                emit(json!({"u": hex(b"/P?b=1"), "u2": hex(b"/P?b=1"), "kind": "ascii-host", "cfg": cfg, "target": hex(b"/t"), "host": hex(qh.as_bytes()), "headers": [], "rhost": rh}));
             }
         }
     }
@@ -574,11 +631,15 @@ fn run(case: &Value) -> Obs {
             }
         }
     }
-    // the model lower-cases ASCII only
-    let cased_non_ascii = |s: &str| s.chars().any(|ch| !ch.is_ascii() && (ch.is_uppercase() || ch.is_lowercase() && ch.to_uppercase().next() != Some(ch)));
-    if host.as_deref().map(cased_non_ascii).unwrap_or(false) || headers.iter().any(|(_, v)| cased_non_ascii(v)) {
-        return Obs::invalid("cased non-ascii host/header");
-    }
+    // Implementation-only cases (the driver abstains, by the same rule): the model lower-cases ASCII only, which is exact
+    // for paths and queries (theorem lowercased_text_ascii) but not for HOSTS and HEADER VALUES, where Rust's Unicode
+    // to_lowercase sees the raw text; and the model has no host matcher, so a rule with a marker-free host is judged by
+    // the oracles below only.
+    let rhost: Option<String> = case.get("rhost").and_then(|h| h.as_str()).map(|h| h.to_string());
+    let rhost_static = rhost.as_ref().map(|h| !h.contains('@')).unwrap_or(false);
+    let impl_only = rhost_static
+        || (ihc && host.as_deref().map(|h| !h.is_ascii()).unwrap_or(false))
+        || (ihd && headers.iter().any(|(_, v)| !v.is_ascii()));
     let config = RouterConfig {
         ignore_host_case: ihc,
         ignore_header_case: ihd,
@@ -606,7 +667,6 @@ fn run(case: &Value) -> Obs {
             }
         }
     }
-    let rhost: Option<String> = case.get("rhost").and_then(|h| h.as_str()).map(|h| h.to_string());
     let rule_json = json!({"id": "r", "rank": 0, "source": {"path": rpath, "query": rquery, "host": rhost}, "markers": markers_json, "target": target, "status_code": 302});
     let rule: Rule = match serde_json::from_value(rule_json) {
         Ok(r) => r,
@@ -677,6 +737,11 @@ fn run(case: &Value) -> Obs {
     if has_dup { o = o.tag("dup-key"); }
     if !markers_json.is_empty() { o = o.tag(format!("declared-markers:{}", markers_json.len())); }
     if rhost.is_some() { o = o.tag("rule-host"); }
+    if impl_only { o = o.tag("impl-only"); }
+    let unicode_cased = |t: &str| t.chars().any(|ch| !ch.is_ascii() && (ch.is_uppercase() || ch.to_uppercase().next() != Some(ch)));
+    if unicode_cased(&u) || unicode_cased(&u2) { o = o.tag("non-ascii-cased-url"); }
+    if host.as_deref().map(unicode_cased).unwrap_or(false) || rhost.as_deref().map(unicode_cased).unwrap_or(false) { o = o.tag("non-ascii-cased-host"); }
+    if headers.iter().any(|(_, v)| unicode_cased(v)) { o = o.tag("non-ascii-cased-header"); }
     if !u.is_ascii() { o = o.tag("non-ascii"); }
     if u.contains('%') { o = o.tag("percent"); }
     if u.contains('+') { o = o.tag("plus"); }
@@ -688,9 +753,33 @@ fn run(case: &Value) -> Obs {
     // ---- oracles on the implementation alone -------------------------------------------------
     let m1 = req1.path_and_query_skipped.path_and_query_matching.clone();
     let m2 = req2.path_and_query_skipped.path_and_query_matching.clone();
+    // hosts: a rule with a marker-free host matches iff the request has that host, compared after Unicode lower-casing
+    // iff ignore_host_case (both sides use str::to_lowercase); a rule without host (or with a marker host built to match)
+    // is not restricted here
+    let host_ok = match (&rhost, rhost_static) {
+        (Some(rh), true) => match &host {
+            Some(h) => if ihc { rh.to_lowercase() == h.to_lowercase() } else { rh == h },
+            None => false,
+        },
+        _ => true,
+    };
+    if rhost_static && !host_ok && (m11 || m12) {
+        return o.fail("a rule with a host matches a request with another host", "host-case");
+    }
     // (1) self-match inside WFurl
-    if wf && !m11 {
-        return o.fail("rule built from u does not match the request for u although WFurl(u)", "self-match");
+    if wf && host_ok && !m11 {
+        return if rhost_static {
+            o.fail("rule with a host does not match the request for the same URL and the same host (up to case iff ignore_host_case)", "host-case")
+        } else {
+            o.fail("rule built from u does not match the request for u although WFurl(u)", "self-match")
+        };
+    }
+    // header values and hosts are lower-cased iff the flags say so (Unicode to_lowercase), by from_config and rebuild alike
+    {
+        let want_host = host.as_ref().map(|h| if ihc { h.to_lowercase() } else { h.clone() });
+        if req1.host != want_host {
+            return o.fail("Request::from_config does not lower-case the host exactly when ignore_host_case is set", "host-case");
+        }
     }
     // (2) rebuild idempotence, and rebuild of a fresh request changes nothing
     let ser = |r: &Request| serde_json::to_value(r).unwrap_or(Value::Null);
@@ -699,6 +788,12 @@ fn run(case: &Value) -> Obs {
     }
     if ser(&Request::rebuild_with_config(&config, &req1)) != ser(&req1) {
         return o.fail("rebuilding a request made by from_config changes it", "rebuild");
+    }
+    for ((_, v), h) in headers.iter().zip(rb1.headers.iter()) {
+        let want = if ihd { v.to_lowercase() } else { v.clone() };
+        if h.value != want {
+            return o.fail("rebuild_with_config does not lower-case header values exactly when ignore_header_case is set", "rebuild");
+        }
     }
     let (p1, _) = split_q(&u);
     let (p2, _) = split_q(&u2);
@@ -793,6 +888,25 @@ fn run(case: &Value) -> Obs {
         if accepted2 && plain(&map1) && plain(&map2) && (sanitize_url(p1) != sanitize_url(p2n) || drop_mk(&map1) != drop_mk(&map2)) {
             return o.fail("a request with a different path or different decoded parameters matches", "separation");
         }
+    }
+    // (7) self-match OUTSIDE WFurl (ungated; evaluated last so that the other oracles still see these cases): the property
+    // says "under every configuration"; the four classes below are recorded findings, each with its specific cause —
+    // anything else is a plain `self-match` violation
+    if !wf && host_ok && !m11 {
+        let fallback = Some(if ic { san.to_lowercase() } else { san.clone() });
+        let has_mk = im && map1.keys().any(|k| mk.contains(k));
+        let empty_param = map1.get("").map(|v| v.is_empty()).unwrap_or(false) && map1.len() >= 2;
+        return if !accepted && m1 == fallback {
+            o.fail("the sanitised URL is rejected by PathAndQuery: the request side falls back to the unsorted sanitised URL while the rule side sorts and re-encodes the query", "self-match-rejected-by-pathandquery")
+        } else if accepted && rpath.is_empty() {
+            o.fail("empty path: the request side reads `?q` as `/` + query, the rule side keeps the empty path", "self-match-empty-path")
+        } else if accepted && has_mk {
+            o.fail("the URL names an ignored marketing parameter: the request side drops it, the rule built from the URL keeps it and can never match", "self-match-marketing-param")
+        } else if accepted && empty_param {
+            o.fail("the empty parameter `=` next to others: the request side drops it silently, the rule side leaves its separator", "self-match-empty-param")
+        } else {
+            o.fail("rule built from u does not match the request for u", "self-match")
+        };
     }
     o
 }
